@@ -10,6 +10,9 @@ import (
 
 func ioEOF() error { return io.EOF }
 
+// the library's reader interface (io.Reader + io.ByteReader), under a name that does not clash with encoding/binary
+type binary2Reader = binary.Reader
+
 func bufioSized(r io.Reader, n int) binary.Reader { return bufio.NewReaderSize(r, n) }
 
 // iccOutReader: like iccOut, but reading through an arbitrary binary.Reader; raw is the
